@@ -220,7 +220,9 @@ pub fn install_panic_hook() {
 /// Run `f` (a call into the library) under catch_unwind and the hang watchdog.
 pub fn guarded<R>(hang_line: &str, f: impl FnOnce() -> R) -> Result<R, CallOutcome> {
     watchdog_arm(WD_SECS.load(Ordering::SeqCst) as u32, hang_line);
+    let outer = crate::alloc::IN_LIB.swap(true, Ordering::SeqCst);
     let r = std::panic::catch_unwind(std::panic::AssertUnwindSafe(f));
+    crate::alloc::IN_LIB.store(outer, Ordering::SeqCst);
     watchdog_disarm();
     match r {
         Ok(v) => Ok(v),
@@ -229,6 +231,14 @@ pub fn guarded<R>(hang_line: &str, f: impl FnOnce() -> R) -> Result<R, CallOutco
             Err(CallOutcome { ok: false, msg, file })
         }
     }
+}
+
+/// Run a harness callback that the library invoked: allocations made here are the harness's.
+pub fn in_callback<R>(f: impl FnOnce() -> R) -> R {
+    let outer = crate::alloc::IN_CB.swap(true, Ordering::SeqCst);
+    let r = f();
+    crate::alloc::IN_CB.store(outer, Ordering::SeqCst);
+    r
 }
 
 // ------------------------------------------------------------------------------------------------
